@@ -653,21 +653,21 @@ func sameLevel(i *Iter) bool {
 //@   safe
 
 //@ func (*Array).AsFloat variant anytape
-//@   props C05 C19
+//@   props C05 C19 C12
 //@   requires 0 <= a.off && a.off <= 1<<57
 //@   invariant 0 0 <= a.off && a.off <= 1<<57
 //@   decreases 0 len(a.tape.Tape) - a.off
 //@   safe
 
 //@ func (*Array).AsInteger variant anytape
-//@   props C05 C19
+//@   props C05 C19 C12
 //@   requires 0 <= a.off && a.off <= 1<<57
 //@   invariant 0 0 <= a.off && a.off <= 1<<57
 //@   decreases 0 len(a.tape.Tape) - a.off
 //@   safe
 
 //@ func (*Array).AsUint64 variant anytape
-//@   props C05 C19
+//@   props C05 C19 C12
 //@   requires 0 <= a.off && a.off <= 1<<57
 //@   invariant 0 0 <= a.off && a.off <= 1<<57
 //@   decreases 0 len(a.tape.Tape) - a.off
